@@ -1918,6 +1918,20 @@ def tokio_wait(chk, P, prefix):
                 v = mir.o_const_value(r)
                 n += 1
                 if v is False:
+                    # converse: a wait whose notifier was observed to have *fired* (try_recv succeeded, or the timeout future resolved Ok(Ok(()))) does not
+                    # report failure - the flush it waited for did complete
+                    fired = False
+                    td = []
+                    for sbb, o, vals in ps.decisions():
+                        if o[0] == "call" and o[1].callee.get("name") == "is_ok" and tuple(vals) not in (("0",), (0,)):
+                            fired = True
+                        if "Timeout<" in o_str(o) and o[0] == "discr":
+                            td.append(tuple(vals))
+                    if len(td) >= 3 and td[1] in (("0",), (0,)) and td[2] in (("0",), (0,)):
+                        fired = True
+                    if fired:
+                        return False, ("tokio::wait returns false on a path where the notifier was observed to have fired: an async flush (or a wait for room) that "
+                                       "completed within its timeout is reported as failed"), [], b.span
                     continue
                 seen = False
                 elapsed = False
